@@ -270,7 +270,7 @@ class ConcatScenario(BaseScenario):
     KINDS = {
         "mk_hole": 8, "add_depth": 10, "add_interval": 8, "add_to_pg": 6, "set_values": 8, "rename_data": 2, "rename_hole": 3,
         "rm_data_ws": 5, "rm_data_parent": 5, "rm_hole_ws": 3, "rm_hole_parent": 3, "rm_pg": 2, "rm_protected": 2,
-        "copy_hole": 3, "copy_group": 3, "table": 3, "set_attr": 3,
+        "copy_hole": 3, "copy_group": 6, "table": 3, "set_attr": 3,
         "gc": 4, "close_reopen": 6, "reopen_same": 2, "drop": 1,
     }
     PROFILE = {
@@ -299,7 +299,7 @@ class ConcatScenario(BaseScenario):
         return w
 
     def make_config(self, rng):
-        return {"version": rng.choice([2.0, 2.1, 2.1]), "two_ws": rng.random() < 0.4, "n_groups": rng.choice([1, 1, 2]),
+        return {"version": rng.choice([2.0, 2.1, 2.1]), "two_ws": rng.random() < 0.55, "n_groups": rng.choice([1, 1, 2]),
                 "gc": rng.choices(["none", "op", "io", "line"], [2, 4, 3, 1])[0], "gc_density": rng.choice([0.15, 0.4, 0.8]),
                 "h5repack": rng.choices(["absent", "ok", "fail"], [3, 2, 1])[0], "n_ops": rng.choice([6, 10, 16, 24, 36]),
                 "keep_prob": rng.choice([0.0, 0.3, 0.6]), "avoid_known": rng.random() < 0.9}
